@@ -93,6 +93,7 @@ func checkC13(p *Program, r *Report) {
 	r.Floor("C13.range", 2)
 	// round 6 (systematic): no unguarded mutable package-level state behind this property's functions (§2.9)
 	sharedStateRule(p, r, NewEffects(p), "C13.shared", []string{"gcs/gcs.go"})
+	c13verdicts(p, r)
 	r.Floor("C13.shared", 0)
 	r.Explain = "C13.pipeline: every keyed-hash call in package gcs (builder and the three query strategies) feeds its result, unmodified, into the same " +
 		"range-reduction function together with the high and low 32-bit halves of the same modulus field, and the reduced value is only ever " +
